@@ -8,6 +8,11 @@ from roots import root_sets
 
 VERIF = os.path.dirname(os.path.dirname(os.path.abspath(__file__)))
 _cache = {}
+_TIMELIKE = ["naive::time::NaiveTime", "naive::datetime::NaiveDateTime", "datetime::DateTime<Tz>"]
+GENERIC_ROOT_INSTANCES = {
+    "<T as round::SubsecRound>::round_subsecs": _TIMELIKE,
+    "<T as round::SubsecRound>::trunc_subsecs": _TIMELIKE,
+}
 
 
 def load_justifications():
@@ -33,10 +38,25 @@ def run_engine(P, tier="quick", extra_roots=()):
     if tier == "thorough":
         roots += [r for r in I if r not in roots]
     eng = Engine(P, depth_limit=12 if tier == "quick" else 16)
+    eng.docpanic = set(D)
+    eng.just = load_justifications()
+    from roots import deprecated
+    eng.deprecated = set(n for n in D if deprecated(P, n, P.fns[n]))
     failed = []
     for r in roots:
         try:
-            eng.analyse_root(r)
+            if r in GENERIC_ROOT_INSTANCES:
+                # blanket impl over a bounded type parameter: analysed once per in-crate type that satisfies the bounds
+                f = P.fn(r)
+                m = f["mir"]
+                for tyname in GENERIC_ROOT_INSTANCES[r]:
+                    tid = next((i for i, t_ in enumerate(P.tys) if t_["s"] == tyname), None)
+                    if tid is None:
+                        raise RuntimeError("type %s not found for generic root %s" % (tyname, r))
+                    args = tuple(("t", tid) if i == 1 else ("t", m["locals"][i]) for i in range(1, m["argc"] + 1))
+                    eng.analyse(r, args, 0)
+            else:
+                eng.analyse_root(r)
         except Exception as e:  # fail closed: reported by the caller
             failed.append((r, repr(e)))
     res = {"engine": eng, "roots": roots, "E": E_, "D": D, "I": I, "failed": failed}
@@ -49,7 +69,8 @@ def report(chk, P, res, rid, desc, fn_filter=None, kinds=None, floor=1):
     eng = res["engine"]
     just = load_justifications()
     chk.rule(rid, desc, floor=floor)
-    used = 0
+    # one rule per build configuration shares its violation keys: the same site is one finding
+    key_rule = "ABSINT" if rid.split(".")[-1] in ("default", "serde", "locales", "nodefault") else None
     nj = 0
     for (fn, key), o in sorted(eng.obl.items(), key=lambda kv: (kv[0][0], kv[1].ln, kv[1].desc)):
         if fn_filter is not None and not fn_filter(fn):
@@ -58,15 +79,18 @@ def report(chk, P, res, rid, desc, fn_filter=None, kinds=None, floor=1):
             continue
         inst = "%s | %s | %s" % (fn, o.kind, o.desc)
         if not o.bad:
-            chk.ok(inst, "discharged in %d context(s)" % o.ok, rid=rid)
+            chk.ok(inst, "discharged in %d context(s)%s" % (o.ok, ", %d inside a documented panicker" % o.doc if o.doc else ""), rid=rid)
             continue
         j = just.get((fn, o.kind, o.desc))
         if j is not None:
             nj += 1
             chk.ok(inst, "justified: " + j, rid=rid)
             continue
+        if os.environ.get("VERIF_RESIDUE"):
+            with open(os.environ["VERIF_RESIDUE"], "a") as fh:
+                fh.write("%s :: TODO %s @%s\n" % (inst, (o.detail or "")[:100], o.ln))
         chk.bad(inst, "%s obligation not discharged: %s [%s]; reached via %s" % (o.kind, o.desc, o.detail or "", o.bad[0] if o.bad else "?"),
-                loc=P.loc(fn, o.ln), rid=rid)
+                loc=P.loc(fn, o.ln), rid=rid, key_rule=key_rule)
     for r, e in res["failed"]:
         if fn_filter is None or fn_filter(r):
             chk.bad("engine-failure:" + r, "abstract interpreter failed on root %s: %s" % (r, e), rid=rid)
